@@ -373,3 +373,84 @@ def heat_final(u0, dx, time_steps, method="forward_euler"):
 
 def wang_cubic(x):
     return 10 * x[1] - 10 * x[0] ** 3 + 5 * x[0] ** 2 + 6 * x[0]
+
+
+# ----------------------------------------------------------------------------------------
+# user-supplied priors of the test problems (C17 "user prior" facet): parameter catalogue and dense
+# reference log-densities written from the class docstrings (Gaussian N(mean, diag(var)); GMRF of
+# order 1 with zero boundary = N(mean, (prec * P)^-1), P the documented tridiagonal (2, -1) matrix, in 2-D
+# the sum of the horizontal and the vertical one; LMRF / CMRF = i.i.d. Laplace(0, b) / Cauchy(0, g) on
+# the differences x_i - x_{i-1} of x - location with zero boundary (x_{-1} = x_N = 0), in 2-D in both
+# directions; Laplace(location, b) i.i.d.; Uniform on a box)
+# ----------------------------------------------------------------------------------------
+PRIOR_FAMILIES = ["gaussian", "gmrf", "lmrf", "cmrf", "laplace", "uniform"]
+
+
+def user_prior_params(kind, n, k=0):
+    """Deterministic parameters of the user prior of family ``kind`` in dimension n (catalogue k)."""
+    base = [3, -5, 7, 2, -9, 11, -4, 6, -13, 8, 5, -7, 10, -3, 12, -6, 9, -11, 4, 13, -2, 14, -8, 15]
+    vec = np.array([0.0625 * base[(i + 5 * k) % len(base)] for i in range(n)])
+    if kind == "gaussian":          # non-zero mean, non-constant variances
+        return {"mean": vec, "cov": 0.5 + 0.125 * (np.arange(n) % 5)}
+    if kind == "gmrf":
+        return {"mean": vec, "prec": [2.0, 3.0, 1.5][k]}
+    if kind in ("lmrf", "cmrf"):
+        return {"location": [0.25, -0.5, 0.125][k], "scale": [0.5, 0.75, 0.375][k]}
+    if kind == "laplace":
+        return {"location": vec, "scale": [0.5, 0.75, 0.375][k]}
+    if kind == "uniform":
+        return {"low": vec - 4.0, "high": vec + 4.0 + 0.25 * (np.arange(n) % 3)}
+    raise ValueError(kind)
+
+
+def diff_zero_1d(N):
+    """(N+1) x N first-order differences with zero boundary: rows x_0 - 0, x_i - x_{i-1}, 0 - x_{N-1}."""
+    D = np.zeros((N + 1, N))
+    for i in range(N):
+        D[i, i] = 1.0
+        D[i + 1, i] = -1.0
+    return D
+
+
+def diff_zero(shape):
+    """Stacked difference operator for a 1-D signal (shape (N,)) or a row-major N x N image (both directions)."""
+    if len(shape) == 1:
+        return diff_zero_1d(shape[0])
+    N = shape[0]
+    if len(shape) != 2 or shape[1] != N:
+        raise ValueError(shape)
+    D, I = diff_zero_1d(N), np.eye(N)
+    return np.vstack([np.kron(I, D), np.kron(D, I)])
+
+
+def user_prior_logd(kind, params, x, shape):
+    """Reference log-density of the user prior at x (dense, from the documented density)."""
+    x = np.asarray(x, float).ravel()
+    n = x.size
+    if kind == "gaussian":
+        var = np.broadcast_to(np.asarray(params["cov"], float), (n,))
+        r = x - params["mean"]
+        return float(-0.5 * n * math.log(2 * math.pi) - 0.5 * np.sum(np.log(var)) - 0.5 * np.sum(r * r / var))
+    if kind == "gmrf":
+        D = diff_zero(shape)
+        P = params["prec"] * (D.T @ D)
+        r = x - params["mean"]
+        sign, ld = np.linalg.slogdet(P)
+        return float(-0.5 * n * math.log(2 * math.pi) + 0.5 * ld - 0.5 * r @ (P @ r))
+    if kind == "lmrf":
+        d = diff_zero(shape) @ (x - params["location"])
+        b = params["scale"]
+        return float(-d.size * math.log(2 * b) - np.sum(np.abs(d)) / b)
+    if kind == "cmrf":
+        d = diff_zero(shape) @ (x - params["location"])
+        g = params["scale"]
+        return float(np.sum(-math.log(math.pi) + math.log(g) - np.log(d * d + g * g)))
+    if kind == "laplace":
+        b = params["scale"]
+        return float(-n * math.log(2 * b) - np.sum(np.abs(x - params["location"])) / b)
+    if kind == "uniform":
+        lo, hi = np.asarray(params["low"], float), np.asarray(params["high"], float)
+        if np.any(x < lo) or np.any(x > hi):
+            return -math.inf
+        return float(-np.sum(np.log(hi - lo)))
+    raise ValueError(kind)
